@@ -403,16 +403,24 @@ int main(int argc, char** argv)
         if (asan_skip(idx)) { L.count("skipped_asan_sampling"); return; }
         run_real_matrix(sint_get(3, D3(), idx), "sint3:" + num(idx), idx, K_DENSE | K_SHIFT | (idx % 7 == 0 ? K_SPARSE | K_USER | K_SHIFT_SPARSE : 0), L, "sint3#" + num(idx));
     });
-    R.run("struct", 3, [&](uint64_t w, Local& L) {
-        const int n = w == 0 ? 5 : (w == 1 ? 6 : 8);
-        if (q && n == 8) { L.count("skipped_quick"); return; }
-        for (int s = 0; s < sstruct_count(n); s++)
+    {
+        // one index per structured matrix (fine-grained, so that the wall-clock budget is honoured between matrices)
+        std::vector<std::pair<int, int>> sm;
+        for (int n : {5, 6, 8})
         {
+            if (q && n == 8) continue;
+#ifdef VF_ASAN
+            if (n == 8) continue;
+#endif
+            for (int s = 0; s < sstruct_count(n); s++) sm.push_back({n, s});
+        }
+        R.run("struct", sm.size(), [&](uint64_t w, Local& L) {
+            const int n = sm[w].first, s = sm[w].second;
             std::string nm;
             MatL A = sstruct_get(n, s, &nm);
             run_real_matrix(A, "struct" + num(n) + ":" + nm, s, K_DENSE | K_SPARSE | K_USER | K_SHIFT | K_SHIFT_SPARSE, L, "struct#" + num(w));
-        }
-    });
+        });
+    }
     {
         const int n = 6;
         const uint64_t nspec = uint64_t(lcat_count()) * qcat_count(n) * 6;
